@@ -27,6 +27,8 @@
 package sroa
 
 import (
+	"sort"
+
 	"github.com/gogpu/naga/ir"
 )
 
@@ -47,8 +49,16 @@ func Run(mod *ir.Module, fn *ir.Function) int {
 		return 0
 	}
 
+	// Decompose in ascending variable order: decompose appends locals and
+	// expressions, so map iteration order would leak into their numbering.
+	order := make([]uint32, 0, len(candidates))
+	for varIdx := range candidates {
+		order = append(order, varIdx)
+	}
+	sort.Slice(order, func(i, j int) bool { return order[i] < order[j] })
 	count := 0
-	for varIdx, info := range candidates {
+	for _, varIdx := range order {
+		info := candidates[varIdx]
 		if !info.eligible {
 			continue
 		}
